@@ -7,6 +7,7 @@ import (
 	"fmt"
 	"os"
 	"path/filepath"
+	"time"
 
 	simdjson "github.com/minio/simdjson-go"
 )
@@ -36,7 +37,11 @@ func makeEditedObjSized(r *Run, what string, big, huge bool) *simObj {
 	c := r.C
 	cfg := drawCfg(c, true)
 	var doc []byte
-	if huge {
+	if c.Intn("dedupstress", 12) == 0 {
+		cfg.ND = false
+		doc = GenBulkDoc(c, 20000+c.Intn("dedupsz", 200000), []int{FamDedup}).B
+		r.stat("dedup_stress_docs", 1)
+	} else if huge {
 		cfg.ND = false
 		doc = GenBulkDoc(c, 150000+c.Intn("hugesz", 350000), []int{FamDenseArrays, FamZeros, FamNumbers, FamStrings, FamMixed, FamWide}).B
 		r.stat("huge_tapes", 1)
@@ -65,6 +70,12 @@ func RunHistSerial(r *Run) {
 	sers := make([]*serState, nser)
 	for i := range sers {
 		sers[i] = &serState{s: simdjson.NewSerializer(), mode: int(simdjson.CompressDefault)}
+	}
+	if c.Intn("collision", 10) == 0 {
+		bucketCollisionScenario(r, sers[0])
+		if r.failed() {
+			return
+		}
 	}
 	var objs []*simObj
 	nobj := 1 + c.Intn("nobj", 3)
@@ -192,6 +203,63 @@ func RunHistSerial(r *Run) {
 	if *flagXDir != "" && !r.failed() && len(blobs) > 0 {
 		exportBlob(*flagXDir, blobs[c.Intn("xblob", len(blobs))])
 	}
+}
+
+// bucketCollisionScenario: two documents serialized one after the other on the same Serializer such that a short
+// string X and a longer string Y = X+suffix fall into the same dedup bucket, X sits where Y sat in the previous
+// call's string buffer, and both occur in the second document. The second blob must still round-trip.
+func bucketCollisionScenario(r *Run, st *serState) {
+	c := r.C
+	x := []byte([]string{"key_", "id", "a", "name:", "0"}[c.Intn("colx", 5)])
+	y := findBucketMate(c, x, string(x))
+	if y == nil {
+		return
+	}
+	q := func(b []byte) string { return "\"" + string(b) + "\"" }
+	var docA, docB string
+	switch c.Intn("colshape", 4) {
+	case 0:
+		docA = "[" + q(y) + ",1]"
+		docB = "[" + q(x) + "," + q(y) + ",2.5]"
+	case 1:
+		docA = "{" + q(y) + ":true}"
+		docB = "{" + q(x) + ":" + q(y) + "," + q(y) + ":null}"
+	case 2:
+		docA = "[\"p\"," + q(y) + "]"
+		docB = "[\"p\"," + q(x) + ",[" + q(y) + "]]"
+	case 3:
+		docA = "[" + q(y) + "," + q(y) + "]"
+		docB = "[" + q(x) + ",{\"k\":" + q(y) + "}]"
+	}
+	st.mode = c.Intn("cmode", 4)
+	st.s.CompressMode(simdjson.CompressMode(st.mode))
+	cfg := parseCfg{Copy: c.Intn("copy", 2) == 0, AVX512: hostAVX512}
+	oa := parseNew(r, []byte(docA), cfg, "collision scenario doc A")
+	ob := parseNew(r, []byte(docB), cfg, "collision scenario doc B")
+	if oa == nil || ob == nil || r.failed() {
+		return
+	}
+	var blobB []byte
+	if err := safely(func() error { st.s.Serialize(nil, *oa.pj); blobB = st.s.Serialize(nil, *ob.pj); return nil }); err != nil {
+		walkerFail(r, "serialize", "bucket-collision scenario", err)
+		return
+	}
+	st.uses += 2
+	des := simdjson.NewSerializer()
+	var out *simdjson.ParsedJson
+	var derr error
+	if err := safely(func() error { out, derr = des.Deserialize(blobB, nil); return nil }); err != nil {
+		walkerFail(r, "deserialize", "bucket-collision scenario", err)
+		return
+	}
+	r.stat("bucket_collision_scenarios", 1)
+	r.Res.Evals++
+	what := fmt.Sprintf("bucket-collision scenario (mode %d): %s then %s on one Serializer", st.mode, docA, docB)
+	if derr != nil {
+		r.violate("deserialize", "error:"+msgClass(derr.Error()), what+": "+derr.Error())
+		return
+	}
+	readBack(r, &simObj{pj: out, model: ob.model, copy: true}, bInto|bAdv, what, nil)
 }
 
 type xBlob struct {
@@ -331,14 +399,28 @@ func RunHistReuse(r *Run) {
 	var trace []string
 	reused := 0
 	total := 0
+	failedDes := 0
 	body := func(newCall func()) {
 		var pool []*simObj // reusable objects (readable or not)
+		defer func() {
+			// settle: let anything a (failed) call may have left running finish (fake clock: the sleep returns once
+			// every other goroutine of the bubble is idle), then every live object must still expose its document
+			if r.failed() {
+				return
+			}
+			time.Sleep(time.Millisecond)
+			for _, o := range pool {
+				if o.readable() && !r.failed() {
+					readBack(r, o, bInto, fmt.Sprintf("after the history settled, object from %s; history: %v", o.origin, trace), nil)
+				}
+			}
+		}()
 		sers := []*serState{{s: simdjson.NewSerializer(), mode: 2}, {s: simdjson.NewSerializer(), mode: 2}}
 		var blobs []*simBlob
 		for k := 0; k < nops && !r.failed(); k++ {
 			what := fmt.Sprintf("call #%d", k)
-			kind := c.Pick("rop", 8, 2, 3, 1, 1)
-			if kind == 2 && len(blobs) == 0 {
+			kind := c.Pick("rop", 8, 2, 3, 1, 1, 2)
+			if (kind == 2 || kind == 5) && len(blobs) == 0 {
 				kind = 1
 			}
 			switch kind {
@@ -464,6 +546,41 @@ func RunHistReuse(r *Run) {
 				}
 				pool = append(pool, no)
 				readBack(r, no, bInto|bAdv, fmt.Sprintf("%s: deserialized with reuse; history: %v", what, trace), nil)
+			case 5: // a Deserialize that fails (damaged blob) into a reused destination: part of the object's past
+				bl := blobs[c.Intn("blob", len(blobs))]
+				st := sers[c.Intn("ser", 2)]
+				if len(pool) == 0 {
+					continue
+				}
+				dstObj := pool[c.Intn("dstobj", len(pool))]
+				bad := append([]byte(nil), bl.b...)
+				how := "truncated"
+				if f, err := parseFraming(bad); err == nil && c.Intn("badkind", 3) != 0 {
+					sec := 2 + c.Intn("badsec", 2)
+					if f.sec[sec].typeOff >= 0 {
+						bad[f.sec[sec].typeOff] = 7
+						how = "unknown block type in " + secNames[sec]
+					} else {
+						bad = bad[:len(bad)-1-c.Intn("trunc", min(len(bad)-1, 16))]
+					}
+				} else {
+					bad = bad[:len(bad)-1-c.Intn("trunc", min(len(bad)-1, 16))]
+				}
+				var derr error
+				if err := safely(func() error { _, derr = st.s.Deserialize(bad, dstObj.pj); return nil }); err != nil {
+					walkerFail(r, "deserialize", what+" (damaged blob)", err)
+					return
+				}
+				if derr != nil {
+					dstObj.invalid = true
+					failedDes++
+				} else {
+					dstObj.invalid = true // accepted damaged data: content unspecified, still reusable
+				}
+				st.uses++
+				reused++
+				trace = append(trace, fmt.Sprintf("deserialize of a damaged blob (%s, writer mode %d) into a reused dst -> err=%v", how, bl.mode, derr != nil))
+				r.Res.Evals++
 			case 3: // in-place edit of a live object (its tape then carries NOPs and appended strings)
 				var live []*simObj
 				for _, o := range pool {
@@ -517,6 +634,7 @@ func RunHistReuse(r *Run) {
 	r.Res.Sample["history"] = trace
 	r.Res.NonTrivial = reused > 0
 	r.stat("reuses", reused)
+	r.stat("fault_failed_deserialize_into_reused_dst", failedDes)
 	for _, t := range trace {
 		r.fp.str(t)
 	}
@@ -593,7 +711,34 @@ func RunHistAlias(r *Run) {
 	nops := 1 + c.Intn("nops", 8)
 	for k := 0; k < nops && !r.failed(); k++ {
 		what := fmt.Sprintf("op #%d", k)
-		switch c.Pick("aop", 3, 3, 3, 2) {
+		switch c.Pick("aop", 3, 3, 3, 2, 2) {
+		case 4: // hand one of the objects to Parse as reuse: everything else must stay what it was
+			var live []*simObj
+			for _, x := range objs {
+				if x.pj != nil {
+					live = append(live, x)
+				}
+			}
+			if len(live) == 0 {
+				continue
+			}
+			x := live[c.Intn("reparseobj", len(live))]
+			ncfg := drawCfg(c, true)
+			ncfg.Copy = true
+			ndoc := genHistDoc(r, ncfg.ND, c.Intn("reparsebig", 6) == 5)
+			no := parseNewReuse(r, ndoc, ncfg, what+" parse reusing "+x.origin, x.pj)
+			if r.failed() {
+				break
+			}
+			trace = append(trace, "parse reusing '"+x.origin+"'")
+			interesting = true
+			if no == nil {
+				x.invalid = true
+			} else {
+				origin := x.origin
+				*x = *no
+				x.origin = origin + " (reused for another parse)"
+			}
 		case 0: // scribble over / recycle the input buffer
 			how := scribble(c, o.buf.b)
 			o.buf.scribbled = true
